@@ -299,6 +299,26 @@ def r4_apply_publish(ctx, fam):
                           reason='ignore_queue path: publishes %d, local '
                           'handlers %d, base calls %d' % (
                               len(pubs), len(loc), len(sup)), where=where(f))
+                # the base-class call receives this call's own arguments
+                for e in sup[:1]:
+                    base = m.lookup(m.cls(MANAGER[fam]), name) or \
+                        m.lookup(m.cls('BaseManager'), 'basic_' + name)
+                    if base is None:
+                        continue
+                    b = bind_call(e.expr, base)
+                    got = {k: U(run.expand(v)) for k, v in b.args.items()}
+                    want = {}
+                    for prm in f.params[1:]:
+                        if prm in base.params and prm != 'to':
+                            want[prm] = 'to or room' if prm == 'room' and \
+                                'to' in f.params else prm
+                    bad = {k: got.get(k) for k in want
+                           if got.get(k) != want[k]}
+                    ctx.check(not bad, construct, 'ignore_queue: the base '
+                              'class receives this call\'s own arguments',
+                              key='ignore-queue-args', reason='the local '
+                              'application drops or changes %s' % bad,
+                              where=where(f, e.node))
                 continue
             n_q += 1
             ok = len(pubs) == 1 and len(loc) == 1 and \
